@@ -1193,7 +1193,10 @@ def to_digits_exp(s, dps):
     # First, calculate mantissa digits by converting to a binary
     # fixed-point number and then converting that number to
     # a decimal fixed-point number.
-    fixprec = max(bitprec - exp - bc, 0)
+    # Keep every bit of the mantissa (fixprec >= -exp): converting a truncated
+    # mantissa and then rounding on the first discarded digit can give a
+    # decimal that is not the nearest one
+    fixprec = max(bitprec - exp - bc, -exp, 0)
     fixdps = int(fixprec / math.log(10,2) + 0.5)
     sf = to_fixed(s, fixprec)
     sd = bin_to_radix(sf, fixprec, 10, fixdps)
